@@ -533,7 +533,8 @@ func genItems(t *rapid.T, maxLen int) []item {
 	out := make([]item, n)
 	for i := range out {
 		code := rapid.IntRange(0, 31).Draw(t, "keys")
-		out[i] = item{K1: code % 4, K2: k2Values[(code/4)%4], K3: k3Values[code/16]}
+		// K1 in {-2,-1,0,1}: negative keys, zero and positive keys (zero is an ordinary key value)
+		out[i] = item{K1: code%4 - 2, K2: k2Values[(code/4)%4], K3: k3Values[code/16]}
 	}
 	return out
 }
